@@ -38,3 +38,24 @@ Definition all_finite (col : list float) : Prop := forall a, In a col -> Finite 
 Definition ordered_abscissas (ts : list float) : Prop :=
   (forall t, In t ts -> (t =? t) = true) /\
   (forall i j ti tj, (i < j)%nat -> nth_error ts i = Some ti -> nth_error ts j = Some tj -> (tj <? ti) = false).
+
+(* ---------------------------------------------------------------- Area, two curves given on the SAME grid
+   (no interpolation is involved then).  Trapezoidal area of |a - b|, segment terms summed from the left,
+   normalised by the largest magnitude of the reference (first) curve; a null area is null whatever the
+   normalisation (the reference may be identically zero). *)
+Fixpoint segments (ts ds : list float) : list float :=
+  match ts, ds with
+  | t0 :: ((t1 :: _) as ts'), d0 :: ((d1 :: _) as ds') => ((t1 - t0) * (d1 + d0)) / 2 :: segments ts' ds'
+  | _, _ => []
+  end.
+Definition gaps (va vb : list float) : list float := map (fun p => abs (fst p - snd p)) (combine va vb).
+Definition area_between (ts va vb : list float) : float := fold_left PrimFloat.add (segments ts (gaps va vb)) 0.
+Definition largest_magnitude (va : list float) : float :=
+  fold_left (fun m v => if m <? abs v then abs v else m) va (abs (hd 0 va)).
+Definition normalised_area (ts va vb : list float) : float :=
+  let ar := area_between ts va vb in
+  if ar =? 0 then ar else ar / largest_magnitude va.
+
+(* consecutive abscissas are at a finite distance (no overflow of t1 - t0) *)
+Definition steps_finite (ts : list float) : Prop :=
+  forall i ti tj, nth_error ts i = Some ti -> nth_error ts (S i) = Some tj -> Finite (tj - ti).
